@@ -93,6 +93,10 @@ VRead(e) ==
      \* the change is not observable, so only the statement itself is judged - what is returned is a published version
      ELSE IF "mid" \in DOMAIN e /\ e.mid THEN
           (IF Rel("C10") /\ e.res.kind = "data" /\ (e.res.content \notin PublishedContents) THEN R("C10", "OnlyPublished_time_of_tamper", T)
+           \* a share that only vanished after the survey (nothing else changed): if k clean intact shares of the newest
+           \* version are still on the surveyed servers (L is the layout after the change), the read delivers that version
+           ELSE IF Rel("C10") /\ "vanish" \in DOMAIN e /\ e.vanish /\ Available(L, m1.Q)
+                   /\ (e.res.kind # "data" \/ e.res.content # V[Newest(V)].content) THEN R("C10", "Available_after_vanish", T)
            ELSE OK(T))
      ELSE IF e.res.kind = "data" THEN
           (IF Rel("C10") /\ (e.res.content \notin PublishedContents) THEN R("C10", "OnlyPublished", T)
